@@ -343,7 +343,10 @@ def refused_then_registered(ctx, stmts):
     cd = [x for x in exp_on["derived"] if x not in exp_off["derived"]]
     if not cd:
         return
-    wit = {"kind": "refused-then-registered", "text": text, "model": name}
+    first_off = ctx.rng.random() < 0.5
+    if first_off:
+        ctx.hit("refused-parse-with-the-switch-off-then-parsed-with-it-on")
+    wit = {"kind": "refused-then-registered", "text": text, "model": name, "refused_call_had_the_switch_off": first_off}
     ctx.case({"text": text, "history": "refused-registered-parsed"}, nontrivial=True, workload="gen")
 
     def history():
@@ -351,13 +354,14 @@ def refused_then_registered(ctx, stmts):
         with warnings.catch_warnings():
             warnings.simplefilter("ignore")
             try:
-                p.parse()
+                # (the refused request half of the time with the switch off: it is an argument of that one call, not a setting of the object)
+                p.parse(include_ccdecays=False) if first_off else p.parse()
             except Exception:  # noqa: BLE001  - the refusal is the library's documented answer to an unknown model
                 pass
             else:
                 return None
             p.load_additional_decay_models(name)
-            p.parse()
+            p.parse() if ctx.rng.random() < 0.5 else p.parse(include_ccdecays=True)
         return snapshot.compare_tables(p, exp_on)
 
     ok, bad = ctx.guard("parse-after-refusal-and-registration", wit, history)
